@@ -109,7 +109,9 @@ def judge(recipe, fs0, res, faulted, base=None):
     fs1 = res.fs
     # B: --output never replaces an existing file (any options, any fault)
     for path in meta["keep"]:
-        if fs1.get(path) != fs0.get(path):
+        # (only a file that exists can be replaced: the minimiser must not
+        # be able to "simplify" the scenario by dropping that file)
+        if path in fs0 and fs1.get(path) != fs0[path]:
             out.append("B:existing-output-file-replaced")
     label = meta["label"]
     if not faulted:
